@@ -782,8 +782,23 @@ pub(crate) fn parse_year_month(source: &str) -> TemporalResult<IxdtfParseRecord>
 #[inline]
 pub(crate) fn parse_month_day(source: &str) -> TemporalResult<IxdtfParseRecord> {
     let md_record = parse_ixdtf(source, ParseVariant::MonthDay);
-    // Error needs to be a RangeError
-    md_record.map_err(|e| TemporalError::range().with_message(format!("{e}")))
+
+    if let Ok(md) = md_record {
+        if md.offset == Some(UtcOffsetRecordOrZ::Z) {
+            return Err(TemporalError::range()
+                .with_message("UTC designator is not valid for DateTime parsing."));
+        }
+        return Ok(md);
+    }
+
+    // NOTE: A TemporalMonthDayString can also be a date or date-time string.
+    let dt_parse = parse_date_time(source);
+
+    match dt_parse {
+        Ok(dt) => Ok(dt),
+        // Error needs to be a RangeError
+        _ => md_record.map_err(|e| TemporalError::range().with_message(format!("{e}"))),
+    }
 }
 
 #[inline]
